@@ -997,7 +997,7 @@ fn specs(thorough: bool) -> Vec<Spec> {
     // --- BinaryAdd: supported widths, then widths that must be rejected (or be exact)
     for w in [1u32, 2, 4, 8, 16, 32, 64, 128, 3, 5, 6, 7, 12] {
         for flag in [false, true] {
-            let mut cfgs = vec![("paired", "simple"), ("single", "simple"), ("b3", "simple"), ("b3r", "simple"), ("b213", "simple")];
+            let mut cfgs = vec![("paired", "simple"), ("single", "simple"), ("b3", "simple"), ("b3r", "simple"), ("b213", "simple"), ("c31", "simple"), ("c41s", "simple")];
             if thorough || w != 8 {
                 cfgs.push(("outer", "simple"));
                 cfgs.push(("paired", "depth"));
